@@ -11,6 +11,12 @@
          access:<names>                     TensorAccess::from
          transpose:<names>                  TensorTranspose::from
                                                               → ok shape=<view shape> | reject
+    @ stack <pos>.<name> <tuple|array> <N> <shape> [pre:<adaptor>]* <adaptor>*
+                                           TensorStack of N tensors of that shape (leaf j holds ids
+                                           j*100000 + offset), each under the `pre:` adaptors, the
+                                           result under the remaining adaptors
+    @ chain <name> <tuple|array> <shape>|<shape>|… [pre:<adaptor>]* <adaptor>*
+                                           TensorChain of tensors of these shapes along <name>
     @ matrix <rows> <cols> <adaptor>*      Matrix with ids 0..n-1
          range:<rs>.<rl>.<cs>.<cl>          MatrixRange::from (may be empty)
          reverse:<r|c|rc|->                 MatrixReverse::from
@@ -43,8 +49,8 @@ open EasyMl EasyMl.Iter EasyMl.View Driver
 inductive Src where
   | none
   | shape (lens : List Nat)
-  | tensor (names : List String) (src : TSource Nat) (leafLen : Nat)
-  | matrix (src : MSource Nat) (leafLen : Nat)
+  | tensor (names : List String) (src : TSource Nat) (leafIds : List Nat)
+  | matrix (src : MSource Nat) (leafIds : List Nat)
 
 abbrev State := Src
 
@@ -150,14 +156,14 @@ def nodup : List (Option (Option Nat)) → Bool
   | [] => true
   | x :: xs => !(xs.contains x) && nodup xs
 
-def showLeft (mem : Mem) (leafLen : Nat) : String :=
-  "left=" ++ showNats' ((List.range leafLen).map fun o => match mem o with
+def showLeft (mem : Mem) (leafIds : List Nat) : String :=
+  "left=" ++ showNats' (leafIds.map fun o => match mem o with
     | some v => toString v
     | none => "P")
 where showNats' (l : List String) : String := if l.isEmpty then "-" else ",".intercalate l
 
 /-- answer of an `iter` / `left` operation for any position iterator -/
-def answer (op : String) (f : Flavour) (wi : Bool) (split : Option Nat) (n leafLen total : Nat)
+def answer (op : String) (f : Flavour) (wi : Bool) (split : Option Nat) (n : Nat) (leafIds : List Nat) (total : Nat)
     (next : σ → Outcome (Option π × σ)) (hint : σ → Outcome (Nat × Option Nat))
     (counter : σ → π) (cell : π → Option Nat) (item : Nat → Option π) (showP : π → String)
     (s0 : σ) : String :=
@@ -165,7 +171,7 @@ def answer (op : String) (f : Flavour) (wi : Bool) (split : Option Nat) (n leafL
   if op = "left" then
     let visited := (List.range n).filterMap fun k => (item k).bind cell
     let specMem : Mem := fun o => if visited.contains o then none else some o
-    both (showLeft specMem leafLen) (showLeft m.2.2.2 leafLen)
+    both (showLeft specMem leafIds) (showLeft m.2.2.2 leafIds)
   else
     let tail (distinct : Bool) : String :=
       match f with
@@ -213,10 +219,33 @@ def applyTensorAdaptor (v : View String Nat) (tok : String) : Option (View Strin
   | ["transpose", spec] => mkTranspose v (splitComma spec)
   | _ => none
 
-/-- the view as an iterator source; a single leaf, so the cell is shown by its offset -/
+/-- ids of leaf `j` are `j * leafStride + offset` (leaf 0: the plain offset) -/
+def leafStride : Nat := 100000
+
+/-- the view as an iterator source; a cell `(leaf, offset)` is shown as its id -/
 def viewSource (v : View String Nat) : TSource Nat :=
   let src := TSource.ofView v
-  { shape := src.shape, cell := fun idx => (src.cell idx).map (·.2) }
+  { shape := src.shape, cell := fun idx => (src.cell idx).map fun c => c.1 * leafStride + c.2 }
+
+/-- all ids of the leaves of a view, leaf by leaf -/
+def viewLeafIds (v : View String Nat) : List Nat :=
+  v.leaves.flatMap fun (id, data) => (List.range data.length).map fun o => id * leafStride + o
+
+/-- leaf `j` of the given shape, then the `pre:` adaptors -/
+def zipSource (j : Nat) (shape : List (String × Nat)) (pre : List String) : Option (View String Nat) :=
+  pre.foldl (fun acc tok => acc.bind fun v => applyTensorAdaptor v tok)
+    (mkTensor j shape (List.range (elements shape)))
+
+/-- split the adaptor tokens of a `@ stack` / `@ chain` header into `pre:` ones and the rest -/
+def splitPre (toks : List String) : List String × List String :=
+  (toks.filterMap fun t => if t.startsWith "pre:" then some (t.drop 4).toString else none,
+   toks.filter fun t => !t.startsWith "pre:")
+
+def finishTensor (root : Option (View String Nat)) (post : List String) : State × String :=
+  match post.foldl (fun acc tok => acc.bind fun v => applyTensorAdaptor v tok) root with
+  | none => (.none, "reject")
+  | some v =>
+    (.tensor (v.shape.map (·.1)) (viewSource v) (viewLeafIds v), s!"ok shape={showShape v.shape}")
 
 def applyMatrixAdaptor (src : MSource Nat) (tok : String) : Option (MSource Nat) :=
   match tok.splitOn ":" with
@@ -257,7 +286,7 @@ def shapeIterAnswer (lens : List Nat) (n : Nat) : String :=
   if total ≤ usizeMax then both (";".intercalate specRecs) model
   else s!"unrepresentable-length ## {model}"
 
-def matrixAnswer (op : String) (src : MSource Nat) (leafLen : Nat) (toks : List String) : String :=
+def matrixAnswer (op : String) (src : MSource Nat) (leafIds : List Nat) (toks : List String) : String :=
   let kind := (optArg "k" toks).getD "rowmajor"
   let a := natArg "a" toks 0
   let n := natArg "n" toks 0
@@ -270,37 +299,37 @@ def matrixAnswer (op : String) (src : MSource Nat) (leafLen : Nat) (toks : List 
     let counterL (it : LineIter) : Nat × Nat := it.line.position it.range.start
     match kind with
     | "rowmajor" =>
-      answer op f wi split n leafLen (src.rows * src.columns) rowMajorNext rowMajorSizeHint counterM
+      answer op f wi split n leafIds (src.rows * src.columns) rowMajorNext rowMajorSizeHint counterM
         src.cell (Spec.rowMajorItem src.rows src.columns) showPos (MatIter.new src.rows src.columns)
     | "colmajor" =>
-      answer op f wi split n leafLen (src.rows * src.columns) colMajorNext colMajorSizeHint counterM
+      answer op f wi split n leafIds (src.rows * src.columns) colMajorNext colMajorSizeHint counterM
         src.cell (Spec.colMajorItem src.rows src.columns) showPos (MatIter.new src.rows src.columns)
     | "row" =>
       match LineIter.newRow src.rows src.columns a with
       | .panic k => s!"panic({k})"
       | .ok it =>
-        answer op f false none n leafLen src.columns lineNext (fun it => .ok it.sizeHint) counterL
+        answer op f false none n leafIds src.columns lineNext (fun it => .ok it.sizeHint) counterL
           src.cell (Spec.rowItem src.columns a) showPos it
     | "col" =>
       match LineIter.newColumn src.rows src.columns a with
       | .panic k => s!"panic({k})"
       | .ok it =>
-        answer op f false none n leafLen src.rows lineNext (fun it => .ok it.sizeHint) counterL
+        answer op f false none n leafIds src.rows lineNext (fun it => .ok it.sizeHint) counterL
           src.cell (Spec.columnItem src.rows a) showPos it
     | "diag" =>
-      answer op f false none n leafLen (min src.rows src.columns) lineNext (fun it => .ok it.sizeHint)
+      answer op f false none n leafIds (min src.rows src.columns) lineNext (fun it => .ok it.sizeHint)
         counterL src.cell (Spec.diagonalItem src.rows src.columns) showPos
         (LineIter.newDiagonal src.rows src.columns)
     | _ => "bad-op"
 
-def tensorAnswer (op : String) (src : TSource Nat) (leafLen : Nat) (toks : List String) : String :=
+def tensorAnswer (op : String) (src : TSource Nat) (leafIds : List Nat) (toks : List String) : String :=
   let n := natArg "n" toks 0
   let wi := (optArg "wi" toks) == some "1"
   let split := (optArg "split" toks).bind String.toNat?
   match parseFlavour ((optArg "f" toks).getD (if op = "left" then "owned" else "copy")) with
   | none => "bad-op"
   | some f =>
-    answer op f wi split n leafLen (prod src.shape) shapeNext (fun it => it.sizeHint) (·.indexes)
+    answer op f wi split n leafIds (prod src.shape) shapeNext (fun it => it.sizeHint) (·.indexes)
       src.cell (Spec.shapeItem src.shape) showIdx (ShapeIter.new src.shape)
 
 def step (s : State) (toks : List String) : State × String :=
@@ -314,27 +343,42 @@ def step (s : State) (toks : List String) : State × String :=
     | none => (.none, "bad-op")
     | some shape =>
       let n := elements shape
-      match mkTensor 0 shape (List.range n) with
-      | none => (.none, "reject")
-      | some t =>
-        match adaptors.foldl (fun acc tok => acc.bind fun v => applyTensorAdaptor v tok) (some t) with
+      finishTensor (mkTensor 0 shape (List.range n)) adaptors
+  | "@" :: "stack" :: alongS :: _form :: countS :: shapeS :: rest =>
+    match alongS.splitOn ".", countS.toNat?, parseShape shapeS with
+    | [posS, name], some count, some shape =>
+      match posS.toNat? with
+      | none => (.none, "bad-op")
+      | some pos =>
+        let (pre, post) := splitPre rest
+        match (List.range count).mapM fun j => zipSource j shape pre with
         | none => (.none, "reject")
-        | some v => (.tensor (v.shape.map (·.1)) (viewSource v) n, s!"ok shape={showShape v.shape}")
+        | some srcs => finishTensor (mkStack srcs (pos, name)) post
+    | _, _, _ => (.none, "bad-op")
+  | "@" :: "chain" :: name :: _form :: shapesS :: rest =>
+    match (shapesS.splitOn "|").mapM parseShape with
+    | none => (.none, "bad-op")
+    | some shapes =>
+      let (pre, post) := splitPre rest
+      -- `pre:rename` changes the name of the chained dimension along with the others
+      match (List.zip (List.range shapes.length) shapes).mapM fun (j, shape) => zipSource j shape pre with
+      | none => (.none, "reject")
+      | some srcs => finishTensor (mkChain srcs name) post
   | "@" :: "matrix" :: rowsS :: colsS :: adaptors =>
     match rowsS.toNat?, colsS.toNat? with
     | some rows, some cols =>
       let start : Option (MSource Nat) := some (MSource.ofMatrix rows cols)
       match adaptors.foldl (fun acc tok => acc.bind fun src => applyMatrixAdaptor src tok) start with
       | none => (.none, "bad-op")
-      | some src => (.matrix src (rows * cols), s!"ok size={src.rows}x{src.columns}")
+      | some src => (.matrix src (List.range (rows * cols)), s!"ok size={src.rows}x{src.columns}")
     | _, _ => (.none, "bad-op")
   | op :: rest =>
     if op = "iter" || op = "left" then
       match s with
       | .none => (s, "no-source")
       | .shape lens => (s, shapeIterAnswer lens (natArg "n" rest 0))
-      | .tensor _ src leafLen => (s, tensorAnswer op src leafLen rest)
-      | .matrix src leafLen => (s, matrixAnswer op src leafLen rest)
+      | .tensor _ src leafIds => (s, tensorAnswer op src leafIds rest)
+      | .matrix src leafIds => (s, matrixAnswer op src leafIds rest)
     else (s, "bad-op")
   | _ => (s, "bad-op")
 
